@@ -42,6 +42,7 @@ var c26Corpus = []c26Diagram{
 	{"corpus-near", "title: Big Title {near: top-center; shape: text; style.font-size: 40}\nlegend: {near: bottom-right; a; b; a -> b}\nx -> y -> z\nx.label.near: bottom-center\ny: {icon: https://icons.terrastruct.com/essentials/004-picture.svg; icon.near: outside-top-left}", "dagre", 0, true, false},
 	{"corpus-grid", "g: {grid-rows: 2; grid-gap: 10; a; b; c: {x -> y; y -> z}; d: {grid-columns: 2; p; q; r}}\ng.a -> g.b\ng.c.x -> h\nh -> g.d.q", "dagre", 0, true, false},
 	{"corpus-sequence", "s: {shape: sequence_diagram; alice -> bob: hi; bob -> alice: yo; alice.t1 -> bob.t1: span; grp: {alice -> bob: in group}; bob.\"a note\"}\ns -> t: after\nt: {u -> v}", "dagre", 0, true, false},
+	{"corpus-root-label", "label: Board Title\na -> b: x\nc", "dagre", 0, true, true},
 	{"corpus-grid-cross-edge", "a: {b}\nc: {grid-rows: 1; d; e: {f}}\na.b -> c.d\nc.e.f -> a", "dagre", 0, true, true},
 	{"corpus-sequence-cross-edge", "s: {shape: sequence_diagram; a -> b: hi}\nt\ns.a -> t: out", "dagre", 0, true, true},
 	{"corpus-root-sequence", "shape: sequence_diagram\na -> b: one\nb -> c: two\nc -> a: three\nb.note", "dagre", 0, true, false},
@@ -372,12 +373,18 @@ func c26Diagram2Cases(d c26Diagram, maxB int) (out []Case) {
 	// in-process layout, recording the graphs at the plugin boundary (layout and edge routing)
 	nb, nr := 0, 0
 	routerSawLifeline := false
+	boardRootLabelSent := false
 	var boundary []Case
 	rec := func(engine string) (d2graph.LayoutGraph, error) {
 		real := c26Engine(engine)
 		return func(ctx context.Context, g *d2graph.Graph) error {
 			take := nb < maxB
 			nb++
+			if g.AST != nil && g.Root != nil && g.Root.Label.MapKey != nil {
+				// signature of C26-root-label-mapkey: a board (not a nested graph) whose root carries an
+				// explicit label is handed to the core layout
+				boardRootLabelSent = true
+			}
 			if take {
 				m := meta
 				m.Stage = fmt.Sprintf("wire-in-%d", nb)
@@ -443,6 +450,9 @@ func c26Diagram2Cases(d c26Diagram, maxB int) (out []Case) {
 				return nil, err
 			}
 			return p.Layout, nil
+		}
+		if boardRootLabelSent {
+			m.KF = append(m.KF, c26KFRootLabel)
 		}
 		var router func(string) (d2graph.RouteEdges, error)
 		if withRouter {
